@@ -297,6 +297,9 @@ func TestC14Random(t *testing.T) {
 		} else {
 			f = genForest(forestParams{maxNodes: 12, maxDepth: 6, names: names, oneRoot: entry == "root" || mode == "toml"}).Draw(rt, "forest")
 		}
+		if op == "output" && mode != "dryrun" && rapid.IntRange(0, 11).Draw(rt, "long") == 0 {
+			withLongName(rt, f) // a row of 4 000 .. 60 000 bytes: printers may hand such rows to the writer in pieces
+		}
 		if (op == "verify" || op == "mkdir") && hasDupRoots(f) {
 			uniqRoots(f)
 		}
